@@ -151,8 +151,8 @@ Qed.
 Lemma ext_cfg_ok h h' c : cfg_ok h c = true -> ext (h_next h) h h' ->
   cfg_ok h' c = true /\ get_cfg h' c = get_cfg h c /\ snapshot h' c = snapshot h c.
 Proof.
-  intros Ok E. pose proof (ext_next _ _ _ E) as Nx.
-  destruct (cfg_ok_inv _ _ Ok) as (r & cl & hd & E0 & E1 & E2 & L0 & L1 & L2).
+  intros Hok E. pose proof (ext_next _ _ _ E) as Nx.
+  destruct (cfg_ok_inv _ _ Hok) as (r & cl & hd & E0 & E1 & E2 & L0 & L1 & L2).
   destruct E as (ws & -> & Ab).
   pose proof (writes_frame_cfg _ _ Ab h c L0) as F0.
   pose proof (writes_frame_tab _ _ Ab h _ L1) as F1.
@@ -164,11 +164,11 @@ Proof.
 Qed.
 
 Lemma ext_read_form h h' c : cfg_ok h c = true -> ext (h_next h) h h' -> read_form h' c = read_form h c.
-Proof. intros Ok E. unfold read_form. now rewrite (proj1 (proj2 (ext_cfg_ok _ _ _ Ok E))). Qed.
+Proof. intros Hok E. unfold read_form. now rewrite (proj1 (proj2 (ext_cfg_ok _ _ _ Hok E))). Qed.
 
 Lemma ext_read_jsonclass h h' c : cfg_ok h c = true -> ext (h_next h) h h' ->
   read_jsonclass h' c = read_jsonclass h c.
-Proof. intros Ok E. unfold read_jsonclass. now rewrite (proj1 (proj2 (ext_cfg_ok _ _ _ Ok E))). Qed.
+Proof. intros Hok E. unfold read_jsonclass. now rewrite (proj1 (proj2 (ext_cfg_ok _ _ _ Hok E))). Qed.
 
 (** ** Config.copy() *)
 
@@ -236,13 +236,13 @@ Lemma copy_ok h c : cfg_ok h c = true ->
   exists h1 c', config_copy h c = Ok (h1, c') /\ ext (h_next h) h h1 /\ h_next h <= c'
     /\ cfg_ok h1 c' = true /\ cfg_ok h1 c = true.
 Proof.
-  intros Ok. destruct (cfg_ok_inv _ _ Ok) as (r & cl & hd & E0 & E1 & E2 & L0 & L1 & L2).
+  intros Hok. destruct (cfg_ok_inv _ _ Hok) as (r & cl & hd & E0 & E1 & E2 & L0 & L1 & L2).
   destruct (config_copy_spec h c r cl hd E0 E1 E2) as [HS Ab].
   eexists _, _. split; [exact HS|].
   destruct (copy_objects h c r cl hd E0 E1 E2 _ _ HS) as (_ & Nx & Ex & R & T1 & T2).
   split; [exact Ex|]. split; [lia|]. split.
   - eapply cfg_ok_intro; [exact R|exact T1|exact T2|..]; cbn; lia.
-  - apply (ext_cfg_ok _ _ _ Ok Ex).
+  - apply (ext_cfg_ok _ _ _ Hok Ex).
 Qed.
 
 (** ** Operations: footprint *)
@@ -356,13 +356,13 @@ Qed.
 (** copy() establishes separation *)
 Lemma copy_separate h c h1 c' : cfg_ok h c = true -> config_copy h c = Ok (h1, c') -> separate h1 c c'.
 Proof.
-  intros Ok H. destruct (cfg_ok_inv _ _ Ok) as (r & cl & hd & E0 & E1 & E2 & L0 & L1 & L2).
+  intros Hok H. destruct (cfg_ok_inv _ _ Hok) as (r & cl & hd & E0 & E1 & E2 & L0 & L1 & L2).
   destruct (copy_objects h c r cl hd E0 E1 E2 _ _ H) as (-> & Nx & Ex & R & T1 & T2).
-  pose proof (ext_cfg_ok _ _ _ Ok Ex) as (Ok1 & G & _).
+  pose proof (ext_cfg_ok _ _ _ Hok Ex) as (Hok1 & G & _).
   unfold get_cfg in G. rewrite E0 in G.
   destruct (lookup_loc c (h_cfgs h1)) as [r1|] eqn:E0'; [|discriminate]. inversion G; subst r1. clear G.
   eexists r, _. split; [exact E0'|]. split; [exact R|]. unfold copy_rec. cbn [c_classes c_handlers].
-  split; [lia|]. split; [lia|]. split; [lia|]. split; [lia|]. split; [lia|]. split; [exact Ok1|].
+  split; [lia|]. split; [lia|]. split; [lia|]. split; [lia|]. split; [lia|]. split; [exact Hok1|].
   eapply cfg_ok_intro; [exact R|exact T1|exact T2|..]; cbn; lia.
 Qed.
 
@@ -371,10 +371,10 @@ Theorem copy_independent h c h1 c' os :
   (exists h2, apply_ops h1 c' os = Ok h2 /\ snapshot h2 c = snapshot h c)
   /\ (exists h2, apply_ops h1 c os = Ok h2 /\ snapshot h2 c' = snapshot h1 c').
 Proof.
-  intros Ok H. pose proof (copy_separate _ _ _ _ Ok H) as HS.
+  intros Hok H. pose proof (copy_separate _ _ _ _ Hok H) as HS.
   assert (Sn : snapshot h1 c = snapshot h c).
-  { destruct (copy_ok h c Ok) as (h1' & c'' & H' & Ex & _). rewrite H in H'. inversion H'; subst.
-    apply (ext_cfg_ok _ _ _ Ok Ex). }
+  { destruct (copy_ok h c Hok) as (h1' & c'' & H' & Ex & _). rewrite H in H'. inversion H'; subst.
+    apply (ext_cfg_ok _ _ _ Hok Ex). }
   split.
   - destruct (ops_separate os h1 c' c (separate_sym _ _ _ HS)) as (h2 & E & Sn2 & _).
     exists h2. split; [exact E|congruence].
@@ -395,7 +395,7 @@ Theorem copy_contents h c h1 c' s :
     /\ c_classes (s_rec s') <> c_classes (s_rec s) /\ c_handlers (s_rec s') <> c_handlers (s_rec s)
     /\ c_classes (s_rec s') <> c_handlers (s_rec s) /\ c_handlers (s_rec s') <> c_classes (s_rec s).
 Proof.
-  intros Ok H Sn. destruct (cfg_ok_inv _ _ Ok) as (r & cl & hd & E0 & E1 & E2 & L0 & L1 & L2).
+  intros Hok H Sn. destruct (cfg_ok_inv _ _ Hok) as (r & cl & hd & E0 & E1 & E2 & L0 & L1 & L2).
   destruct (copy_objects h c r cl hd E0 E1 E2 _ _ H) as (-> & Nx & Ex & R & T1 & T2).
   unfold snapshot, get_cfg, get_tab in Sn. rewrite E0 in Sn. cbn [bind] in Sn. rewrite E1, E2 in Sn.
   cbn [bind] in Sn. inversion Sn; subst s. clear Sn.
@@ -424,10 +424,10 @@ Section Serving.
     exists h1 c, request_config h srv m = Ok (h1, c) /\ ext (h_next h) h h1
       /\ read_form h1 c = Ok (request_form f m) /\ read_jsonclass h1 c = Ok jc.
   Proof.
-    intros Ok Hf Hj. unfold request_config, request_form. rewrite Hf. cbn [bind].
+    intros Hok Hf Hj. unfold request_config, request_form. rewrite Hf. cbn [bind].
     destruct (negb (dhas m "jsonrpc") && form_eqb f V2) eqn:T.
     2:{ exists h, srv. split; [reflexivity|]. split; [apply ext_refl|]. auto. }
-    destruct (cfg_ok_inv _ _ Ok) as (r & cl & hd & E0 & E1 & E2 & L0 & L1 & L2).
+    destruct (cfg_ok_inv _ _ Hok) as (r & cl & hd & E0 & E1 & E2 & L0 & L1 & L2).
     destruct (config_copy_spec h srv r cl hd E0 E1 E2) as [HS Ab]. rewrite HS. cbn [bind].
     destruct (copy_objects h srv r cl hd E0 E1 E2 _ _ HS) as (_ & Nx & Ex & R & T1 & T2).
     rewrite (set_version_spec _ _ _ _ R). cbn [bind].
@@ -444,8 +444,8 @@ Section Serving.
                = Ok (h1, single_dispatch body sigs f (mkSrv (hs_reg hs) (hs_pool hs) jc) dm m method params)
                /\ ext (h_next h) h h1.
   Proof.
-    intros Ok Hf Hj. unfold single_dispatch_h.
-    destruct (request_config_spec h (hs_cfg hs) m f jc Ok Hf Hj) as (h1 & c & -> & Ex & Rf & Rj).
+    intros Hok Hf Hj. unfold single_dispatch_h.
+    destruct (request_config_spec h (hs_cfg hs) m f jc Hok Hf Hj) as (h1 & c & -> & Ex & Rf & Rj).
     cbn [bind]. rewrite Rf, Rj. cbn [bind]. exists h1. split; [reflexivity|exact Ex].
   Qed.
 
@@ -455,7 +455,7 @@ Section Serving.
                = Ok (h1, answer_entry body sigs f (mkSrv (hs_reg hs) (hs_pool hs) jc) dm e)
                /\ ext (h_next h) h h1.
   Proof.
-    intros Ok Hf Hj. unfold answer_entry_h, answer_entry. rewrite Hf. cbn [bind].
+    intros Hok Hf Hj. unfold answer_entry_h, answer_entry. rewrite Hf. cbn [bind].
     destruct (validate_request f e) as [ft|m method params].
     - exists h. split; [reflexivity|apply ext_refl].
     - now apply single_dispatch_h_spec.
@@ -466,8 +466,8 @@ Section Serving.
     cfg_ok h c = true -> read_form h c = Ok f -> read_jsonclass h c = Ok jc -> ext (h_next h) h h' ->
     cfg_ok h' c = true /\ read_form h' c = Ok f /\ read_jsonclass h' c = Ok jc.
   Proof.
-    intros Ok Hf Hj Ex. split; [apply (ext_cfg_ok _ _ _ Ok Ex)|].
-    rewrite (ext_read_form _ _ _ Ok Ex), (ext_read_jsonclass _ _ _ Ok Ex). auto.
+    intros Hok Hf Hj Ex. split; [apply (ext_cfg_ok _ _ _ Hok Ex)|].
+    rewrite (ext_read_form _ _ _ Hok Ex), (ext_read_jsonclass _ _ _ Hok Ex). auto.
   Qed.
 
   Lemma batch_h_spec hs dm f jc es : forall h,
@@ -476,13 +476,13 @@ Section Serving.
                = Ok (h1, batch body sigs f (mkSrv (hs_reg hs) (hs_pool hs) jc) dm es)
                /\ ext (h_next h) h h1.
   Proof.
-    induction es as [|e r IH]; intros h Ok Hf Hj.
+    induction es as [|e r IH]; intros h Hok Hf Hj.
     - exists h. split; [reflexivity|apply ext_refl].
     - cbn [batch_h batch].
-      destruct (answer_entry_h_spec h hs dm e f jc Ok Hf Hj) as (h1 & -> & Ex1). cbn [bind].
+      destruct (answer_entry_h_spec h hs dm e f jc Hok Hf Hj) as (h1 & -> & Ex1). cbn [bind].
       destruct (answer_entry body sigs f _ dm e) as [o l].
-      destruct (keep _ _ _ _ _ Ok Hf Hj Ex1) as (Ok1 & Hf1 & Hj1).
-      destruct (IH h1 Ok1 Hf1 Hj1) as (h2 & -> & Ex2). cbn [bind].
+      destruct (keep _ _ _ _ _ Hok Hf Hj Ex1) as (Hok1 & Hf1 & Hj1).
+      destruct (IH h1 Hok1 Hf1 Hj1) as (h2 & -> & Ex2). cbn [bind].
       destruct (batch body sigs f _ dm r) as [os ls].
       exists h2. split; [reflexivity|]. eapply ext_step; eauto.
   Qed.
@@ -493,7 +493,7 @@ Section Serving.
                = Ok (h1, unmarshaled_dispatch body sigs f (mkSrv (hs_reg hs) (hs_pool hs) jc) dm req)
                /\ ext (h_next h) h h1.
   Proof.
-    intros Ok Hf Hj. unfold unmarshaled_h, unmarshaled_dispatch.
+    intros Hok Hf Hj. unfold unmarshaled_h, unmarshaled_dispatch.
     destruct (negb (truthy req)).
     { rewrite Hf. cbn [bind]. exists h. split; [reflexivity|apply ext_refl]. }
     assert (One : exists h1,
@@ -502,10 +502,10 @@ Section Serving.
       = Ok (h1, (let '(o, l) := answer_entry body sigs f (mkSrv (hs_reg hs) (hs_pool hs) jc) dm req in
                  (match o with Some x => UObj x | None => UNone end, l)))
       /\ ext (h_next h) h h1).
-    { destruct (answer_entry_h_spec h hs dm req f jc Ok Hf Hj) as (h1 & -> & Ex). cbn [bind].
+    { destruct (answer_entry_h_spec h hs dm req f jc Hok Hf Hj) as (h1 & -> & Ex). cbn [bind].
       destruct (answer_entry body sigs f _ dm req) as [o l]. exists h1. auto. }
     destruct req; try exact One.
-    destruct (batch_h_spec hs dm f jc l h Ok Hf Hj) as (h1 & -> & Ex). cbn [bind].
+    destruct (batch_h_spec hs dm f jc l h Hok Hf Hj) as (h1 & -> & Ex). cbn [bind].
     destruct (batch body sigs f _ dm l) as [os lg]. exists h1. auto.
   Qed.
 
@@ -515,10 +515,10 @@ Section Serving.
                = Ok (h1, marshaled_dispatch body sigs f (mkSrv (hs_reg hs) (hs_pool hs) jc) dm p)
                /\ ext (h_next h) h h1.
   Proof.
-    intros Ok Hf Hj. unfold serve, marshaled_dispatch.
+    intros Hok Hf Hj. unfold serve, marshaled_dispatch.
     destruct (loads_m p) as [req|x].
     2:{ rewrite Hf. cbn [bind]. exists h. split; [reflexivity|apply ext_refl]. }
-    destruct (unmarshaled_h_spec h hs dm req f jc Ok Hf Hj) as (h1 & -> & Ex). cbn [bind].
+    destruct (unmarshaled_h_spec h hs dm req f jc Hok Hf Hj) as (h1 & -> & Ex). cbn [bind].
     destruct (unmarshaled_dispatch body sigs f _ dm req) as [u l].
     exists h1. split; [|exact Ex]. destruct u; reflexivity.
   Qed.
@@ -529,12 +529,12 @@ Section Serving.
                = Ok (h1, map (marshaled_dispatch body sigs f (mkSrv (hs_reg hs) (hs_pool hs) jc) dm) ps)
                /\ ext (h_next h) h h1.
   Proof.
-    induction ps as [|p r IH]; intros h Ok Hf Hj.
+    induction ps as [|p r IH]; intros h Hok Hf Hj.
     - exists h. split; [reflexivity|apply ext_refl].
     - cbn [serve_all map].
-      destruct (serve_spec h hs dm p f jc Ok Hf Hj) as (h1 & -> & Ex1). cbn [bind].
-      destruct (keep _ _ _ _ _ Ok Hf Hj Ex1) as (Ok1 & Hf1 & Hj1).
-      destruct (IH h1 Ok1 Hf1 Hj1) as (h2 & -> & Ex2). cbn [bind].
+      destruct (serve_spec h hs dm p f jc Hok Hf Hj) as (h1 & -> & Ex1). cbn [bind].
+      destruct (keep _ _ _ _ _ Hok Hf Hj Ex1) as (Hok1 & Hf1 & Hj1).
+      destruct (IH h1 Hok1 Hf1 Hj1) as (h2 & -> & Ex2). cbn [bind].
       exists h2. split; [reflexivity|]. eapply ext_step; eauto.
   Qed.
 
@@ -545,10 +545,10 @@ Section Serving.
     reply_after body sigs h hs dm hist p
     = Ok (marshaled_dispatch body sigs f (mkSrv (hs_reg hs) (hs_pool hs) jc) dm p).
   Proof.
-    intros Ok Hf Hj. unfold reply_after.
-    destruct (serve_all_spec hs dm f jc hist h Ok Hf Hj) as (h1 & -> & Ex1). cbn [bind fst].
-    destruct (keep _ _ _ _ _ Ok Hf Hj Ex1) as (Ok1 & Hf1 & Hj1).
-    destruct (serve_spec h1 hs dm p f jc Ok1 Hf1 Hj1) as (h2 & -> & _). reflexivity.
+    intros Hok Hf Hj. unfold reply_after.
+    destruct (serve_all_spec hs dm f jc hist h Hok Hf Hj) as (h1 & -> & Ex1). cbn [bind fst].
+    destruct (keep _ _ _ _ _ Hok Hf Hj Ex1) as (Hok1 & Hf1 & Hj1).
+    destruct (serve_spec h1 hs dm p f jc Hok1 Hf1 Hj1) as (h2 & -> & _). reflexivity.
   Qed.
 
   Theorem reply_function h h' srv srv' reg pool dm hist hist' p f jc :
@@ -558,9 +558,9 @@ Section Serving.
     reply_after body sigs h (mkHS srv reg pool) dm hist p
     = reply_after body sigs h' (mkHS srv' reg pool) dm hist' p.
   Proof.
-    intros Ok Ok' Hf Hf' Hj Hj'.
-    rewrite (reply_is_pure h (mkHS srv reg pool) dm hist p f jc Ok Hf Hj).
-    rewrite (reply_is_pure h' (mkHS srv' reg pool) dm hist' p f jc Ok' Hf' Hj'). reflexivity.
+    intros Hok Hok' Hf Hf' Hj Hj'.
+    rewrite (reply_is_pure h (mkHS srv reg pool) dm hist p f jc Hok Hf Hj).
+    rewrite (reply_is_pure h' (mkHS srv' reg pool) dm hist' p f jc Hok' Hf' Hj'). reflexivity.
   Qed.
 
   (** *** C13_config_unchanged *)
@@ -570,7 +570,7 @@ Section Serving.
   Lemma prefix_snapshots h ws c k :
     cfg_ok h c = true -> above (h_next h) ws -> snapshot (writes (firstn k ws) h) c = snapshot h c.
   Proof.
-    intros Ok Ab. apply (ext_cfg_ok h _ c Ok). exists (firstn k ws). split; [reflexivity|].
+    intros Hok Ab. apply (ext_cfg_ok h _ c Hok). exists (firstn k ws). split; [reflexivity|].
     now apply above_firstn.
   Qed.
 
@@ -584,7 +584,7 @@ Section Serving.
       /\ forall k, snapshot (writes (firstn k ws) h) (hs_cfg hs) = snapshot h (hs_cfg hs)
                    /\ snapshot (writes (firstn k ws) h) dflt = snapshot h dflt.
   Proof.
-    intros Ok Okd Hf Hj. destruct (serve_spec h hs dm p f jc Ok Hf Hj) as (h1 & E & (ws & -> & Ab)).
+    intros Hok Hokd Hf Hj. destruct (serve_spec h hs dm p f jc Hok Hf Hj) as (h1 & E & (ws & -> & Ab)).
     eexists _, _, ws. split; [exact E|]. split; [reflexivity|]. split; [apply writes_log|].
     split; [exact Ab|]. intros k. split; now apply prefix_snapshots.
   Qed.
@@ -599,7 +599,7 @@ Section Serving.
       /\ forall k, snapshot (writes (firstn k ws) h) (hs_cfg hs) = snapshot h (hs_cfg hs)
                    /\ snapshot (writes (firstn k ws) h) dflt = snapshot h dflt.
   Proof.
-    intros Ok Okd Hf Hj. destruct (serve_all_spec hs dm f jc ps h Ok Hf Hj) as (h1 & E & (ws & -> & Ab)).
+    intros Hok Hokd Hf Hj. destruct (serve_all_spec hs dm f jc ps h Hok Hf Hj) as (h1 & E & (ws & -> & Ab)).
     eexists _, _, ws. split; [exact E|]. split; [reflexivity|]. split; [apply writes_log|].
     split; [exact Ab|]. intros k. split; now apply prefix_snapshots.
   Qed.
@@ -609,7 +609,7 @@ Section Serving.
     cfg_ok h c = true -> lookup_loc c (h_cfgs h) = Some r -> h_next h <= wloc w ->
     wloc w <> c /\ wloc w <> c_classes r /\ wloc w <> c_handlers r.
   Proof.
-    intros Ok E L. destruct (cfg_ok_inv _ _ Ok) as (r' & cl & hd & E0 & _ & _ & L0 & L1 & L2).
+    intros Hok E L. destruct (cfg_ok_inv _ _ Hok) as (r' & cl & hd & E0 & _ & _ & L0 & L1 & L2).
     rewrite E in E0. inversion E0; subst r'. lia.
   Qed.
 
@@ -622,10 +622,18 @@ Section Serving.
                reply_form o = Some (if dhas m "jsonrpc" then f else V1))
     /\ (wellformed_entry e = false -> reply_form o = Some f).
   Proof.
-    intros Ok Hf Hj H. destruct (answer_entry_h_spec h hs dm e f jc Ok Hf Hj) as (h1' & E & _).
+    intros Hok Hf Hj H. destruct (answer_entry_h_spec h hs dm e f jc Hok Hf Hj) as (h1' & E & _).
     rewrite E in H. inversion H as [[Hh Ha]]. split.
     - intros m -> Hw. eapply reply_form_valid; eauto.
     - intros Hw. eapply reply_form_invalid; eauto.
+  Qed.
+
+  Theorem unparsable_on_heap h hs dm f jc :
+    cfg_ok h (hs_cfg hs) = true -> read_form h (hs_cfg hs) = Ok f -> read_jsonclass h (hs_cfg hs) = Ok jc ->
+    exists h1 o, serve body sigs h hs dm PError = Ok (h1, Ok (ROne o, [])) /\ reply_form o = Some f.
+  Proof.
+    intros Hok Hf Hj. unfold serve. cbn [loads_m]. rewrite Hf. cbn [bind].
+    eexists _, _. split; [reflexivity|apply reply_form_err].
   Qed.
 
   (** every object of a batch reply is the answer to one of the batch's entries *)
@@ -639,3 +647,261 @@ Section Serving.
   Qed.
 
 End Serving.
+
+(** ** Concurrent serving: all schedules *)
+
+Section Concurrent.
+  Variable body : cid -> val -> outcome.
+  Variable sigs : cid -> signature.
+  Variable hs : hserver.
+  Variable h0 : heap.                    (* the heap when the threads start *)
+  Variable f : form.
+  Variable jc : bool.
+  Hypothesis Hok0 : cfg_ok h0 (hs_cfg hs) = true.
+  Hypothesis Hf0 : read_form h0 (hs_cfg hs) = Ok f.
+  Hypothesis Hj0 : read_jsonclass h0 (hs_cfg hs) = Ok jc.
+
+  Let n0 := h_next h0.
+  Let srv := hs_cfg hs.
+
+  Definition cfg_is (h : heap) (c : loc) (fm : form) (j : bool) : Prop :=
+    exists r, lookup_loc c (h_cfgs h) = Some r /\ form_of_version (c_version r) = Some fm
+              /\ truthy (c_use_jsonclass r) = j.
+
+  Definition cfg_has (h : heap) (c : loc) (j : bool) : Prop :=
+    exists r, lookup_loc c (h_cfgs h) = Some r /\ truthy (c_use_jsonclass r) = j.
+
+  Definition test_of (rq : treq) : bool := negb (dhas (tr_m rq) "jsonrpc") && form_eqb f V2.
+
+  (** the sequential answer to a thread's request *)
+  Definition seq_answer (rq : treq) : option val * list event :=
+    single_dispatch body sigs f (mkSrv (hs_reg hs) (hs_pool hs) jc) (tr_dm rq) (tr_m rq) (tr_method rq) (tr_params rq).
+
+  (** what a thread knows at each program point *)
+  Definition thread_ok (h : heap) (t : thread) : Prop :=
+    let rq := t_req t in
+    match t_pc t with
+    | PTest => True
+    | PCopy => test_of rq = true
+    | PKeep => test_of rq = false
+    | PSetVer c => test_of rq = true /\ n0 <= c /\ c < h_next h /\ cfg_has h c jc
+    | PCall c | PReply c =>
+        c < h_next h /\ cfg_is h c (request_form f (tr_m rq)) jc
+        /\ ((c = srv /\ test_of rq = false) \/ (n0 <= c /\ test_of rq = true))
+    | PDone out => out = seq_answer rq
+    | PFailed => False
+    end.
+
+  (** what a step of any thread may do to the heap *)
+  Inductive guar (h h' : heap) : Prop :=
+  | G_id : h' = h -> guar h h'
+  | G_alloc ws : h' = writes ws h -> above (h_next h) ws -> guar h h'
+  | G_setver c r : lookup_loc c (h_cfgs h) = Some r -> n0 <= c ->
+                   h' = do_write h (WCfg c (with_version r one_point_zero)) -> guar h h'.
+
+  Lemma guar_ext h h' : n0 <= h_next h -> guar h h' -> ext n0 h h'.
+  Proof.
+    intros L [->|ws -> Ab|c r E Lc ->].
+    - apply ext_refl.
+    - exists ws. split; [reflexivity|]. eapply above_weaken; eauto.
+    - now apply ext_write.
+  Qed.
+
+  Lemma guar_next h h' : guar h h' -> h_next h <= h_next h'.
+  Proof.
+    intros [->|ws -> Ab|c r E Lc ->].
+    - lia.
+    - apply writes_next_mono.
+    - apply write_next_le.
+  Qed.
+
+  Lemma srv_below : srv < n0.
+  Proof. destruct (cfg_ok_inv _ _ Hok0) as (r & cl & hd & _ & _ & _ & L & _). exact L. Qed.
+
+  (** a configuration below the allocation pointer, after a step of any thread *)
+  Lemma guar_cfg_has h h' c j : guar h h' -> c < h_next h -> cfg_has h c j -> cfg_has h' c j.
+  Proof.
+    intros [->|ws -> Ab|c' r' E Lc ->] L (r & Er & Tr); [exists r; auto| |].
+    - exists r. split; [|exact Tr]. now rewrite (writes_frame_cfg _ _ Ab h c L).
+    - rewrite <- Tr. destruct (Nat.eqb c c') eqn:Q.
+      + apply Nat.eqb_eq in Q. subst c'. rewrite Er in E. inversion E; subst r'.
+        exists (with_version r one_point_zero). split; [|reflexivity].
+        now rewrite cfgs_write_cfg, Nat.eqb_refl.
+      + exists r. split; [|reflexivity]. now rewrite cfgs_write_cfg, Q.
+  Qed.
+
+  Lemma guar_cfg_is h h' c fm j :
+    guar h h' -> c < h_next h -> (n0 <= c -> fm = V1) -> cfg_is h c fm j -> cfg_is h' c fm j.
+  Proof.
+    intros [->|ws -> Ab|c' r' E Lc ->] L Hv (r & Er & Fr & Tr); [exists r; auto| |].
+    - exists r. split; [|auto]. now rewrite (writes_frame_cfg _ _ Ab h c L).
+    - destruct (Nat.eqb c c') eqn:Q.
+      + apply Nat.eqb_eq in Q. subst c'. rewrite Er in E. inversion E; subst r'.
+        exists (with_version r one_point_zero). split; [now rewrite cfgs_write_cfg, Nat.eqb_refl|].
+        split; [|exact Tr]. rewrite (Hv Lc). reflexivity.
+      + exists r. split; [|auto]. now rewrite cfgs_write_cfg, Q.
+  Qed.
+
+  Lemma request_form_test rq : request_form f (tr_m rq) = if test_of rq then V1 else f.
+  Proof. reflexivity. Qed.
+
+  Lemma thread_ok_stable h h' t : guar h h' -> thread_ok h t -> thread_ok h' t.
+  Proof.
+    intros G. pose proof (guar_next _ _ G) as Nx. unfold thread_ok.
+    destruct (t_pc t) as [| |c| |c|c|out|]; auto.
+    - intros (T & L0 & L & Hc). repeat split; auto; [lia|]. eapply guar_cfg_has; eauto.
+    - intros (L & Hc & D). split; [lia|]. split; [|exact D].
+      eapply guar_cfg_is; eauto. intros Lc. rewrite request_form_test.
+      destruct D as [[-> _]|[_ ->]]; [|reflexivity]. pose proof srv_below. lia.
+    - intros (L & Hc & D). split; [lia|]. split; [|exact D].
+      eapply guar_cfg_is; eauto. intros Lc. rewrite request_form_test.
+      destruct D as [[-> _]|[_ ->]]; [|reflexivity]. pose proof srv_below. lia.
+  Qed.
+
+  (** the server's configuration in every heap that extends the initial one above [n0] *)
+  Lemma srv_kept h : ext n0 h0 h ->
+    cfg_ok h srv = true /\ read_form h srv = Ok f /\ read_jsonclass h srv = Ok jc.
+  Proof. intros E. exact (keep _ _ _ _ _ Hok0 Hf0 Hj0 E). Qed.
+
+  Lemma cfg_is_reads h c fm j : cfg_is h c fm j -> read_form h c = Ok fm /\ read_jsonclass h c = Ok j.
+  Proof.
+    intros (r & E & Fr & Tr). unfold read_form, read_jsonclass, get_cfg. rewrite E. cbn [bind].
+    rewrite Fr, Tr. auto.
+  Qed.
+
+  Lemma reads_cfg_is h c fm j : read_form h c = Ok fm -> read_jsonclass h c = Ok j -> cfg_is h c fm j.
+  Proof.
+    intros Hf Hj. destruct (read_form_inv _ _ _ Hf) as (r & E & Fr). exists r. split; [exact E|]. split; [exact Fr|].
+    unfold read_jsonclass, get_cfg in Hj. rewrite E in Hj. cbn [bind] in Hj. congruence.
+  Qed.
+
+  (** one step of one thread: the heap changes as [guar] allows, and the thread knows what its next
+      program point needs *)
+  Lemma tstep_ok h t h' p' :
+    ext n0 h0 h -> thread_ok h t -> tstep body sigs hs h t = Some (h', p') ->
+    guar h h' /\ thread_ok h' (mkThread (t_req t) p').
+  Proof.
+    intros E T H. destruct (srv_kept h E) as (Hok & Hf & Hj). fold srv in Hok, Hf, Hj.
+    pose proof (ext_next _ _ _ E) as Nx. fold n0 in Nx. pose proof srv_below as Sb.
+    unfold tstep in H. unfold thread_ok in *. cbn [t_req t_pc]. fold srv in H.
+    destruct (t_pc t) as [| |c| |c|c|out|] eqn:P.
+    - (* LTest *)
+      rewrite Hf in H. inversion H; subst h' p'. split; [now apply G_id|].
+      fold (test_of (t_req t)). destruct (test_of (t_req t)) eqn:Q; reflexivity.
+    - (* LCopy *)
+      destruct (cfg_ok_inv _ _ Hok) as (r & cl & hd & E0 & E1 & E2 & L0 & L1 & L2).
+      destruct (config_copy_spec h srv r cl hd E0 E1 E2) as [HS Ab].
+      destruct (copy_objects h srv r cl hd E0 E1 E2 _ _ HS) as (_ & Nx1 & _ & R & _ & _).
+      fold (copy_rec r (h_next h)) in HS, Ab, Nx1, R.
+      remember (writes [WTab (h_next h) cl; WTab (S (h_next h)) hd; WCfg (S (S (h_next h))) (copy_rec r (h_next h))] h)
+        as hw eqn:Hw.
+      rewrite HS in H.
+      assert (Q : h' = hw /\ p' = PSetVer (S (S (h_next h)))) by (split; congruence).
+      destruct Q as [-> ->]. clear H. split.
+      + eapply G_alloc; [exact Hw|exact Ab].
+      + split; [exact T|]. split; [lia|]. split; [rewrite Nx1; lia|].
+        eexists. split; [exact R|]. unfold copy_rec. cbn [c_use_jsonclass].
+        unfold read_jsonclass, get_cfg in Hj. rewrite E0 in Hj. cbn [bind] in Hj. congruence.
+    - (* LSetVer *)
+      destruct T as (Tt & L0 & L & (r & Er & Tr)).
+      rewrite (set_version_spec _ _ _ _ Er) in H.
+      remember (do_write h (WCfg c (with_version r one_point_zero))) as hw eqn:Hw.
+      assert (Q : h' = hw /\ p' = PCall c) by (split; congruence).
+      destruct Q as [-> ->]. clear H. subst hw. split.
+      + eapply G_setver; eauto.
+      + split; [rewrite next_write; cbn [wloc]; lia|].
+        split; [|right; auto].
+        exists (with_version r one_point_zero). split; [now rewrite cfgs_write_cfg, Nat.eqb_refl|].
+        split; [|exact Tr]. rewrite request_form_test, Tt. reflexivity.
+    - (* LKeep *)
+      inversion H; subst h' p'. split; [now apply G_id|].
+      split; [lia|]. split; [|left; auto].
+      rewrite request_form_test, T. now apply reads_cfg_is.
+    - (* LCall *)
+      inversion H; subst h' p'. split; [now apply G_id|exact T].
+    - (* LReply *)
+      destruct T as (L & Hc & D). destruct (cfg_is_reads _ _ _ _ Hc) as [Rf Rj].
+      rewrite Rf, Rj in H. inversion H; subst h' p'. split; [now apply G_id|reflexivity].
+    - discriminate.
+    - discriminate.
+  Qed.
+
+  (** the invariant of the whole system *)
+  Definition sys_ok (reqs : list treq) (s : cstate) : Prop :=
+    ext n0 h0 (cs_heap s) /\ map t_req (cs_threads s) = reqs /\ Forall (thread_ok (cs_heap s)) (cs_threads s).
+
+  Lemma set_nth_map {A B} (g : A -> B) i a l x :
+    nth_error l i = Some x -> g a = g x -> map g (set_nth i a l) = map g l.
+  Proof.
+    revert i. induction l as [|y r IH]; intros [|i] H Q; cbn in *; try discriminate.
+    - inversion H; subst. now rewrite Q.
+    - now rewrite (IH i H Q).
+  Qed.
+
+  Lemma set_nth_Forall {A} (P : A -> Prop) i a l : Forall P l -> P a -> Forall P (set_nth i a l).
+  Proof.
+    intros F Pa. revert i. induction F as [|y r Py Fr IH]; intros [|i]; cbn; constructor; auto.
+  Qed.
+
+  Lemma cstep_ok reqs s i : sys_ok reqs s -> sys_ok reqs (cstep body sigs hs s i).
+  Proof.
+    intros (E & M & F). unfold cstep.
+    destruct (nth_error (cs_threads s) i) as [t|] eqn:Nt; [|now repeat split].
+    destruct (tstep body sigs hs (cs_heap s) t) as [[h' p']|] eqn:St; [|now repeat split].
+    assert (T : thread_ok (cs_heap s) t).
+    { rewrite Forall_forall in F. apply F. eapply nth_error_In; eauto. }
+    destruct (tstep_ok _ _ _ _ E T St) as [G T'].
+    pose proof (ext_next _ _ _ E) as Nx. fold n0 in Nx.
+    split; [|split]; cbn [cs_heap cs_threads].
+    - eapply ext_trans; [exact E|]. now apply guar_ext.
+    - rewrite <- M. eapply set_nth_map; eauto.
+    - apply set_nth_Forall; [|exact T'].
+      eapply Forall_impl; [|exact F]. intros t0. now apply thread_ok_stable.
+  Qed.
+
+  Lemma run_ok reqs sched : forall s, sys_ok reqs s -> sys_ok reqs (run_sched body sigs hs sched s).
+  Proof.
+    unfold run_sched. induction sched as [|i r IH]; intros s H; cbn [fold_left]; [exact H|].
+    apply IH. now apply cstep_ok.
+  Qed.
+
+  Lemma init_ok reqs : sys_ok reqs (mkCS h0 (init_threads reqs)).
+  Proof.
+    split; [apply ext_refl|]. split; cbn [cs_threads cs_heap]; unfold init_threads.
+    - rewrite map_map. cbn. apply map_id.
+    - apply Forall_forall. intros t Hin. apply in_map_iff in Hin as (rq & <- & _). exact I.
+  Qed.
+
+  (** for every schedule: all writes so far go to locations allocated after the threads started (so the
+      server's Config and any other complete Config keep their snapshot after every prefix of writes);
+      the i-th thread serves the i-th request, never fails, and when it has finished its answer is the
+      sequential one *)
+  Theorem concurrent_independence reqs sched dflt :
+    cfg_ok h0 dflt = true ->
+    let s := run_sched body sigs hs sched (mkCS h0 (init_threads reqs)) in
+    (exists ws, cs_heap s = writes ws h0 /\ h_log (cs_heap s) = (rev ws ++ h_log h0)%list
+                /\ above (h_next h0) ws
+                /\ forall k, snapshot (writes (firstn k ws) h0) (hs_cfg hs) = snapshot h0 (hs_cfg hs)
+                             /\ snapshot (writes (firstn k ws) h0) dflt = snapshot h0 dflt)
+    /\ map t_req (cs_threads s) = reqs
+    /\ forall i t, nth_error (cs_threads s) i = Some t ->
+         t_pc t <> PFailed
+         /\ forall out, t_pc t = PDone out ->
+              out = seq_answer (t_req t)
+              /\ exists h1, single_dispatch_h body sigs h0 hs (tr_dm (t_req t)) (tr_m (t_req t))
+                                              (tr_method (t_req t)) (tr_params (t_req t)) = Ok (h1, out).
+  Proof.
+    intros Hokd s. destruct (run_ok reqs sched _ (init_ok reqs)) as (E & M & F). fold s in E, M, F.
+    split; [|split; [exact M|]].
+    - destruct E as (ws & Ew & Ab). exists ws. split; [exact Ew|]. split; [rewrite Ew; apply writes_log|].
+      split; [exact Ab|]. intros k. split; now apply prefix_snapshots.
+    - intros i t Nt. rewrite Forall_forall in F. pose proof (F t (nth_error_In _ _ Nt)) as T.
+      unfold thread_ok in T. split.
+      + intros Q. now rewrite Q in T.
+      + intros out Q. rewrite Q in T. split; [exact T|].
+        destruct (single_dispatch_h_spec body sigs h0 hs (tr_dm (t_req t)) (tr_m (t_req t)) (tr_method (t_req t))
+                                          (tr_params (t_req t)) f jc Hok0 Hf0 Hj0) as (h1 & Eq & _).
+        exists h1. rewrite Eq, T. reflexivity.
+  Qed.
+
+End Concurrent.
